@@ -382,6 +382,7 @@ fn stage_big(i: &Input, c: &mut Case) -> Result<(), String> {
     for _ in 0..6 {
         cuts.push(t.below(len + 1));
     }
+    cuts.retain(|&p| p <= len);
     cuts.sort();
     cuts.dedup();
     let cap = match t.weighted(&[5, 3, 2]) {
